@@ -511,8 +511,6 @@ func (s *Server) Format(ctx context.Context, params *protocol.DocumentFormatting
 		return nil, nil
 	}
 
-	journal, _ := parser.Parse(doc)
-
 	var commodityFormats map[string]formatter.NumberFormat
 	if s.workspace != nil {
 		commodityFormats = s.workspace.GetCommodityFormats()
@@ -525,7 +523,20 @@ func (s *Server) Format(ctx context.Context, params *protocol.DocumentFormatting
 		MinAlignmentColumn: settings.Formatting.MinAlignmentColumn,
 	}
 
-	return formatter.FormatDocumentWithOptions(journal, doc, commodityFormats, opts), nil
+	return formatText(doc, commodityFormats, opts), nil
+}
+
+// formatText parses the text and formats it. Posting lines with a parse error are not
+// rewritten (see formatter.Options.SkipLines).
+func formatText(doc string, commodityFormats map[string]formatter.NumberFormat, opts formatter.Options) []protocol.TextEdit {
+	journal, errs := parser.Parse(doc)
+
+	opts.SkipLines = make(map[int]bool, len(errs))
+	for _, e := range errs {
+		opts.SkipLines[e.Pos.Line-1] = true
+	}
+
+	return formatter.FormatDocumentWithOptions(journal, doc, commodityFormats, opts)
 }
 
 func applyChange(content string, r protocol.Range, text string) string {
